@@ -223,6 +223,10 @@ func (p *Prog) synthesizeAutos() {
 			if c, ok := p.Contracts.ByKey[key]; ok {
 				for _, cl := range a.Claims {
 					c.Claims[cl] = true
+					if c.ClaimProps == nil {
+						c.ClaimProps = map[string][]string{}
+					}
+					c.ClaimProps[cl] = appendMissing(c.ClaimProps[cl], a.Props)
 				}
 				c.Props = appendMissing(c.Props, a.Props)
 				continue
